@@ -59,18 +59,24 @@ var c10Files = map[string]string{
 	// a page that hands named slots to its layout; the layout places them next to other content
 	"slotpage.vuego":      "---\nlayout: slots\n---\n<template #sidebar><nav>menu {{ b }}</nav></template><template v-slot:foot><i>f</i><b>g</b></template><p>Hello {{ a }}</p>",
 	"layouts/slots.vuego": `<aside><slot name="sidebar"></slot><footer>signed in as {{ a }}</footer></aside><main v-html="content"></main><div><slot name="foot"></slot><u>{{ b }}</u></div>`,
-	"layouts/main.vuego":  `<html><body><div v-html="content"></div><footer>{{ a }}</footer></body></html>`,
-	"fail.vuego":          `<p>{{ a | nosuchfunction }}</p>`,
-	"failinc.vuego":       `<b>x</b><template include="missing.vuego"></template>`,
-	"fmset.vuego":         "---\ncount: 1\nlabel: L\n---\n<template :count=\"count + 1\" :label=\"a\"></template><p>visit {{ count }} {{ label }}</p>",
-	"nest.vuego":          `<template include="card.vuego" :t="a"></template><template include="card.vuego" :t="b"></template><i v-for="x in items"><template include="card.vuego" :t="x"></template></i>`,
-	"card.vuego":          `<div class="card"><template include="badge.vuego" :label="t" title="{{ t }}"></template><template v-html="t"></template></div>`,
-	"badge.vuego":         `<b :data-t="title">{{ label }}</b>`,
-	"failmid.vuego":       `<p title="tok={{ a }} exp={{ b | nosuchfunction }}">x</p>`,
-	"failtext.vuego":      `<p>tok={{ a }} and {{ b | nosuchfunction }} tail</p>`,
-	"failreq.vuego":       `<template include="req.vuego"></template>`,
-	"req.vuego":           `<template :required="zz"><i>{{ zz }}</i></template>`,
-	"tpl.vuego":           `<template :n="a"><p>{{ n }}</p></template><p>{{ n }}</p><template v-keep :m="b"><i>{{ m }}</i></template>`,
+	// two pages in different directories that name the SAME layout: a sibling file wins over layouts/, so the name means one file for the
+	// blog page and another for the docs page - whatever was rendered before
+	"blog/hello.vuego":   "---\nlayout: post\n---\n<p>blog {{ a }}</p>",
+	"blog/post.vuego":    `<article class="blog-post"><div v-html="content"></div><i>{{ b }}</i></article>`,
+	"docs/intro.vuego":   "---\nlayout: post\n---\n<p>docs {{ a }}</p>",
+	"layouts/post.vuego": `<section class="site-post"><div v-html="content"></div><u>{{ b }}</u></section>`,
+	"layouts/main.vuego": `<html><body><div v-html="content"></div><footer>{{ a }}</footer></body></html>`,
+	"fail.vuego":         `<p>{{ a | nosuchfunction }}</p>`,
+	"failinc.vuego":      `<b>x</b><template include="missing.vuego"></template>`,
+	"fmset.vuego":        "---\ncount: 1\nlabel: L\n---\n<template :count=\"count + 1\" :label=\"a\"></template><p>visit {{ count }} {{ label }}</p>",
+	"nest.vuego":         `<template include="card.vuego" :t="a"></template><template include="card.vuego" :t="b"></template><i v-for="x in items"><template include="card.vuego" :t="x"></template></i>`,
+	"card.vuego":         `<div class="card"><template include="badge.vuego" :label="t" title="{{ t }}"></template><template v-html="t"></template></div>`,
+	"badge.vuego":        `<b :data-t="title">{{ label }}</b>`,
+	"failmid.vuego":      `<p title="tok={{ a }} exp={{ b | nosuchfunction }}">x</p>`,
+	"failtext.vuego":     `<p>tok={{ a }} and {{ b | nosuchfunction }} tail</p>`,
+	"failreq.vuego":      `<template include="req.vuego"></template>`,
+	"req.vuego":          `<template :required="zz"><i>{{ zz }}</i></template>`,
+	"tpl.vuego":          `<template :n="a"><p>{{ n }}</p></template><p>{{ n }}</p><template v-keep :m="b"><i>{{ m }}</i></template>`,
 	// the elements with 3 and 5 attributes have spare capacity in the parsed attribute list (the tokenizer grows it 1, 2, 4, 8): an
 	// append to an aliased list would land in the cached node's array
 	// conditions whose operands change their dynamic Go type from one render to the next (int / float64 / int64 / uint8; string / nil / absent)
@@ -93,7 +99,7 @@ var c10Files = map[string]string{
 	"mapbound.vuego": `<div :class="cls" :style="sty" :data-m="cls">x</div><p :class="nested.cls" :title="sty">y</p><i v-for="(k, v) in cls">{{ k }}={{ v }};</i><u>{{ cls }}|{{ sty }}</u>`,
 	// a loop over a MAP whose values differ: the items come in one order, render after render (the order of the keys)
 	"mapiter.vuego": `<ul><li v-for="v in prices">{{ v }}</li></ul><ol><li v-for="(i, row) in people">{{ i }}:{{ row.name }}</li></ol><p v-for="n in byint">{{ n }}</p><i v-for="t in typed">{{ t }};</i>`,
-	"rows.vuego": `<i v-for="r in rows">{{ r.label }}|{{ r.count }};</i><b>{{ one.label }}|{{ one.count }}</b>`,
+	"rows.vuego":    `<i v-for="r in rows">{{ r.label }}|{{ r.count }};</i><b>{{ one.label }}|{{ one.count }}</b>`,
 	"leaksrc.vuego": `<template canary="CANARY-7f3a" other="x"></template><ul><li v-for="p in items"><template canary="CANARY-7f3a" pp="{{ p }}"></template>{{ p }}{{ canary }}</li></ul>` +
 		`<template include="leakcomp.vuego" :canary3="'CANARY-7f3a'"></template><div v-for="(i, p) in items"><template :canary2="'CANARY-7f3a'"></template><b>{{ canary2 }}</b></div>`,
 	"leakcomp.vuego":     `<template canary="CANARY-7f3a"></template><i v-for="w in items"><template canary4="CANARY-7f3a"></template>c</i>`,
@@ -132,7 +138,7 @@ func c10Data(variant int) func() map[string]any {
 
 func c10Progs() []c10Prog {
 	var out []c10Prog
-	for _, f := range []string{"attrs", "style", "loop", "chain", "inc", "once", "filters", "fm", "layouted", "slotpage", "fmset", "nest", "fail", "failinc", "failmid", "failtext", "failreq", "tpl", "vhtml", "map", "tplhtml", "shorthand", "leaksrc", "leaksink"} {
+	for _, f := range []string{"attrs", "style", "loop", "chain", "inc", "once", "filters", "fm", "layouted", "slotpage", "fmset", "nest", "fail", "failinc", "failmid", "failtext", "failreq", "tpl", "vhtml", "map", "tplhtml", "shorthand", "leaksrc", "leaksink", "blog/hello", "docs/intro"} {
 		for v := 0; v < 4; v++ {
 			out = append(out, c10Prog{fmt.Sprintf("%s/%d", f, v), f + ".vuego", c10Data(v), ""})
 		}
@@ -278,7 +284,7 @@ func runC10(r *Run, replay *Case) {
 		for i := 0; i < reps; i++ {
 			out, e, _, _ := c10Render(long, p, i%2 == 1)
 			_ = e
-			if (p.page == "layouted.vuego" || p.page == "slotpage.vuego") && i%2 == 1 {
+			if c10Layouted(p.page) && i%2 == 1 {
 				continue // Vue.Render does not apply layouts: a different program
 			}
 			if i == 0 {
@@ -307,7 +313,7 @@ func runC10(r *Run, replay *Case) {
 	// the pure Lean model against the LONG-USED engine: after everything above, each program still renders what the model — a function of
 	// (files, data) with no memory — says
 	for _, p := range progs {
-		if p.page == "layouted.vuego" || p.page == "slotpage.vuego" {
+		if c10Layouted(p.page) {
 			continue
 		}
 		out, e, _, _ := c10Render(long, p, true)
@@ -335,7 +341,7 @@ func runC10(r *Run, replay *Case) {
 			if p1.page == "shorthand.vuego" || p2.page == "shorthand.vuego" {
 				continue
 			}
-			vue := p1.page != "layouted.vuego" && p1.page != "slotpage.vuego"
+			vue := !c10Layouted(p1.page)
 			c10Render(long, p1, vue)
 			check("pair-plain", []string{p1.name}, p2, vue)
 			check("pair-plain", []string{p1.name, p2.name}, p2, false)
@@ -426,4 +432,13 @@ func c10NoFS(r *Run) {
 		}
 		r.Add(c)
 	}
+}
+
+// pages that are rendered through a layout chain (Template.Render only; Vue.Render does not apply layouts)
+func c10Layouted(page string) bool {
+	switch page {
+	case "layouted.vuego", "slotpage.vuego", "blog/hello.vuego", "docs/intro.vuego":
+		return true
+	}
+	return false
 }
